@@ -298,3 +298,33 @@ Proof.
 Qed.
 Corollary find_returns : forall bytes parse salvage, exists res, cab_find bytes parse salvage (S (length bytes)) 0 [] = Some res.
 Proof. intros. apply find_terminates. unfold flen. lia. Qed.
+
+(* ---------- the reported offsets are strictly increasing (every cabinet is reported once) ---------- *)
+Fixpoint incr_from (lo : N) (l : list N) : Prop := match l with [] => True | x :: r => lo <= x /\ incr_from (x + 1) r end.
+Lemma incr_from_app : forall l lo x, incr_from lo l -> (forall y, In y l -> y < x) -> lo <= x -> incr_from lo (l ++ [x]).
+Proof.
+  induction l as [|a l IH]; intros lo x H B L; cbn [app incr_from] in *; [split; [exact L|exact I]|].
+  destruct H as [H1 H2]. split; [exact H1|]. apply IH; [exact H2|intros y Hy; apply B; right; exact Hy|]. specialize (B a (or_introl eq_refl)). lia.
+Qed.
+Theorem find_increasing_from : forall bytes parse salvage fuel off acc res,
+  incr_from 0 (rev acc) -> (forall y, In y acc -> y < off) ->
+  cab_find bytes parse salvage fuel off acc = Some res -> incr_from 0 res.
+Proof.
+  intros bytes parse salvage. induction fuel as [|f IH]; intros off acc res HI HB E; cbn [cab_find] in E; [discriminate|].
+  pose proof (first_cand_spec (skipn (N.to_nat off) bytes) off) as SP.
+  destruct (first_cand (skipn (N.to_nat off) bytes) off a0) as [[[caboff cablen] foffset]|a'].
+  2:{ inversion E; subst. unfold rev'. rewrite <- rev_alt. exact HI. }
+  destruct SP as (j & tl & _ & Hp & _).
+  pose proof (resume_advances caboff cablen foffset (plausible bytes salvage caboff cablen foffset) (parse caboff)) as ADV.
+  set (acc' := if plausible bytes salvage caboff cablen foffset && parse caboff then caboff :: acc else acc) in *.
+  assert (HI' : incr_from 0 (rev acc')).
+  { unfold acc'. destruct (plausible bytes salvage caboff cablen foffset && parse caboff); [|exact HI]. cbn [rev]. apply incr_from_app; [exact HI| |lia].
+    intros y Hy. apply in_rev in Hy. specialize (HB y Hy). lia. }
+  assert (HB' : forall y, In y acc' -> y < resume_offset caboff cablen foffset (plausible bytes salvage caboff cablen foffset) (parse caboff)).
+  { intros y Hy. unfold acc' in Hy. destruct (plausible bytes salvage caboff cablen foffset && parse caboff).
+    - destruct Hy as [<-|Hy]; [exact ADV|]. specialize (HB y Hy). lia.
+    - specialize (HB y Hy). lia. }
+  destruct (flen bytes <=? _); [inversion E; subst; unfold rev'; rewrite <- rev_alt; exact HI'|]. exact (IH _ _ _ HI' HB' E).
+Qed.
+Theorem find_increasing : forall bytes parse salvage fuel res, cab_find bytes parse salvage fuel 0 [] = Some res -> incr_from 0 res.
+Proof. intros. eapply find_increasing_from; [| |eassumption]; [exact I|intros y []]. Qed.
